@@ -123,8 +123,14 @@ def run(ctx) -> None:
             cs = shapes.compare_shape(n.test)
             if cs and cs[0] == "==" and isinstance(cs[2], ast.Constant) and cs[2].value in ("cfg", "toml") and unparse(cs[1]) in ("fmt", "ctx.config_format"):
                 for st in ast.walk(ast.Module(body=n.body, type_ignores=[])):
-                    if isinstance(st, ast.Assign) and unparse(st.targets[0]) == "default_pattern_strs_by_filename" and isinstance(st.value, ast.Dict):
-                        tables[cs[2].value] = {const_str(k): prog.fold(dc.module, v) for k, v in zip(st.value.keys, st.value.values)}
+                    if isinstance(st, ast.Assign) and unparse(st.targets[0]) == "default_pattern_strs_by_filename":
+                        val = shapes.inline(dc, st.value, prog, consts=False)
+                        try:
+                            tab = prog.fold(dc.module, val)
+                        except AnalysisError:
+                            continue
+                        if isinstance(tab, dict):
+                            tables[cs[2].value] = dict(tab)
     ctx.require(set(tables) == {"cfg", "toml"}, f"default_config: per-format snippet tables not found ({sorted(tables)})")
     bases = {"cfg": ["DEFAULT_CONFIGPARSER_BASE_TMPL"], "toml": ["DEFAULT_PYPROJECT_TOML_BASE_TMPL", "DEFAULT_BUMPVER_TOML_BASE_TMPL"]}
     consumed = {"current_version", "version_pattern", "commit_message", "tag_message", "tag_scope", "pre_commit_hook", "post_commit_hook", "commit", "tag", "push", "file_patterns"}
